@@ -1,0 +1,122 @@
+//go:build verif
+
+// Copyright Istio Authors
+//
+// Licensed under the Apache License, Version 2.0 (the "License");
+// you may not use this file except in compliance with the License.
+// You may obtain a copy of the License at
+//
+//     http://www.apache.org/licenses/LICENSE-2.0
+//
+// Unless required by applicable law or agreed to in writing, software
+// distributed under the License is distributed on an "AS IS" BASIS,
+// WITHOUT WARRANTIES OR CONDITIONS OF ANY KIND, either express or implied.
+// See the License for the specific language governing permissions and
+// limitations under the License.
+
+package model
+
+import (
+	"istio.io/istio/pkg/util/sets"
+	"istio.io/istio/pkg/verif"
+)
+
+// ---------------------------------------------------------------------------------------------
+// C14: filter-chain matches within a listener do not collide
+// ---------------------------------------------------------------------------------------------
+
+// claimed: the TLS host has been accepted for a server with this bind on the port the map belongs to (it
+// becomes an SNI filter-chain match of the listener for that bind).
+func claimed(known map[string]sets.String, host, bind string) bool {
+	_, ok := known[host][bind]
+	return ok
+}
+
+// khInv: every host recorded has a set of binds of its own.
+func khInv(known map[string]sets.String) bool {
+	return known != nil &&
+		verif.Forall(func(h string) bool {
+			s, ok := known[h]
+			return !ok || s != nil
+		}) &&
+		verif.Forall(func(a string) bool {
+			return verif.Forall(func(b string) bool {
+				return a == b || known[a] == nil || !verif.Same(known[a], known[b])
+			})
+		})
+}
+
+// hostAmong: host is one of the first n of hosts.
+func hostAmong(hosts []string, n int, host string) bool {
+	return verif.Exists(func(j int) bool { return 0 <= j && j < n && j < len(hosts) && hosts[j] == host })
+}
+
+// from the statement: "filter-chain matches within a listener do not collide". Servers with TLS are
+// admitted one after the other; a server is refused when one of its hosts was already accepted for the
+// same bind. CheckDuplicates is the memory of that: it reports exactly the hosts already claimed for this
+// bind, claims all hosts when there is none, and - so that a third server cannot collide with the first -
+// never forgets a claim.
+//
+//verif:contract CheckDuplicates
+//verif:prop C14
+func ctCheckDuplicates(hosts []string, bind string, knownHosts map[string]sets.String) {
+	verif.Requires("known-hosts-well-formed", khInv(knownHosts))
+	dups := CheckDuplicates(hosts, bind, knownHosts)
+	verif.Ensures("reported-hosts-were-claimed-for-this-bind", verif.Forall(func(i int) bool {
+		if !(0 <= i && i < len(dups)) {
+			return true
+		}
+		d := dups[i]
+		return hostAmong(hosts, len(hosts), d) && verif.Old(func() bool { return claimed(knownHosts, d, bind) })
+	}))
+	verif.Ensures("accepted-only-if-no-host-was-claimed-for-this-bind", len(dups) != 0 || verif.Forall(func(j int) bool {
+		if !(0 <= j && j < len(hosts)) {
+			return true
+		}
+		h := hosts[j]
+		return !verif.Old(func() bool { return claimed(knownHosts, h, bind) })
+	}))
+	verif.Ensures("accepted-hosts-are-claimed", len(dups) != 0 || verif.Forall(func(j int) bool {
+		return !(0 <= j && j < len(hosts)) || claimed(knownHosts, hosts[j], bind)
+	}))
+	verif.Ensures("claims-are-never-forgotten", verif.Forall(func(h string) bool {
+		return verif.Forall(func(b string) bool {
+			return !verif.Old(func() bool { return claimed(knownHosts, h, b) }) || claimed(knownHosts, h, b)
+		})
+	}))
+	verif.Ensures("nothing-else-is-claimed", verif.Forall(func(h string) bool {
+		return verif.Forall(func(b string) bool {
+			return !claimed(knownHosts, h, b) || verif.Old(func() bool { return claimed(knownHosts, h, b) }) ||
+				(len(dups) == 0 && b == bind && hostAmong(hosts, len(hosts), h))
+		})
+	}))
+	verif.Ensures("known-hosts-well-formed", khInv(knownHosts))
+}
+
+//verif:invariant CheckDuplicates 1
+func invCheckDuplicatesFind(hosts, duplicates []string, bind string, knownHosts map[string]sets.String, rangeindex int) bool {
+	n := rangeindex + 1
+	return rangeindex < len(hosts) && (duplicates == nil || verif.Fresh(duplicates)) &&
+		verif.Forall(func(i int) bool {
+			return !(0 <= i && i < len(duplicates)) || (hostAmong(hosts, n, duplicates[i]) && claimed(knownHosts, duplicates[i], bind))
+		}) &&
+		(len(duplicates) != 0 || verif.Forall(func(j int) bool { return !(0 <= j && j < n) || !claimed(knownHosts, hosts[j], bind) }))
+}
+
+//verif:invariant CheckDuplicates 2
+func invCheckDuplicatesClaim(hosts []string, bind string, knownHosts map[string]sets.String, rangeindex int) bool {
+	n := rangeindex + 1
+	return rangeindex < len(hosts) && khInv(knownHosts) &&
+		verif.Forall(func(j int) bool { return !(0 <= j && j < n) || claimed(knownHosts, hosts[j], bind) }) &&
+		verif.Forall(func(h string) bool {
+			return verif.Forall(func(b string) bool {
+				return !verif.Old(func() bool { return claimed(knownHosts, h, b) }) || claimed(knownHosts, h, b)
+			})
+		}) &&
+		verif.Forall(func(h string) bool {
+			return verif.Forall(func(b string) bool {
+				return !claimed(knownHosts, h, b) || verif.Old(func() bool { return claimed(knownHosts, h, b) }) ||
+					(b == bind && hostAmong(hosts, n, h))
+			})
+		})
+}
